@@ -209,18 +209,31 @@ def one_ref_per_port(repo: Repo, R):
     for name, own in (("_get_portref", "portrefs"), ("_get_connref", "connrefs")):
         fi = repo.func(F_INSTANCE, name)
         key = fi.node.args.args[1].arg
-        defs = au.local_defs(fi.node)
-        refs_names = [k for k, v in defs.items() if "_refs" in ast.unparse(v)] or ["refs"]
-        r = refs_names[0]
-        reuse = None
-        for n in au.walk_no_nested(fi.node):
-            if isinstance(n, ast.If) and ast.unparse(n.test) == f"{key} in {r}.all":
-                rets = [x for x in n.body if isinstance(x, ast.Return)]
-                reuse = bool(rets) and ast.unparse(rets[-1].value) == f"{r}.all[{key}]"
-        ctor = pat.find(f"PortRef(inst=self, portname={key})", fi.node)
-        stored = bool(pat.find(f"{r}.{own}[{key}] = {r}.all[{key}] = $X", fi.node)) or (bool(pat.find(f"{r}.all[{key}] = $X", fi.node)) and bool(pat.find(f"{r}.{own}[{key}] = $X", fi.node)))
+        P = lambda e: shared.prov_text(fi.node, e)
+        # the shared table: the receiver R of the membership test `key in R.all` (compared by provenance)
+        tests = [n.test for n in au.walk_no_nested(fi.node) if isinstance(n, ast.If) and pat.match(f"{key} in $R.all", n.test) is not None]
+        reuse = ctor = stored = False
+        if len(tests) == 1:
+            Rp = P(pat.match(f"{key} in $R.all", tests[0])["R"])
+            is_all = lambda e: isinstance(e, ast.Subscript) and ast.unparse(e.slice) == key and isinstance(e.value, ast.Attribute) and e.value.attr == "all" and P(e.value.value) == Rp
+            ctors = [c for c, _b in pat.find(f"PortRef(inst=self, portname={key})", fi.node)]
+            # a reference is created only when the table has none, and is put into the table there
+            ctor = len(ctors) == 1 and any(t is tests[0] and not pol for t, pol in path_conditions(fi.node, ctors[0]))
+            all_stores = [st for st in au.stmts(fi.node) if isinstance(st, ast.Assign) and any(is_all(t) for t in st.targets)]
+            stored_all = len(all_stores) == 1 and P(all_stores[0].value) == f"PortRef(inst=self, portname={key})" and any(t is tests[0] and not pol for t, pol in path_conditions(fi.node, all_stores[0]))
+            def from_table(e, at):
+                # the value is read from the table, or is the object just created and stored there
+                if is_all(shared.prov(fi.node, e)) or is_all(e):
+                    return True
+                return stored_all and P(e) == f"PortRef(inst=self, portname={key})" and any(t is tests[0] and not pol for t, pol in path_conditions(fi.node, at)) and isinstance(e, ast.Name)
+            rets = shared.returns_of(fi.node)
+            reuse = bool(rets) and all(from_table(r.value, r) for r in rets)
+            own_stores = [st for st in au.stmts(fi.node) if isinstance(st, ast.Assign) and any(isinstance(t, ast.Subscript) and ast.unparse(t.slice) == key and isinstance(t.value, ast.Attribute) and t.value.attr == own and P(t.value.value) == Rp for t in st.targets)]
+            stored = stored_all and bool(own_stores) and all(from_table(st.value, st) for st in own_stores)
+            # every path that returns has recorded the reference in the function's own view
+            stored = stored and all(any(shared.precedes(fi.node, st, r) or st is r for st in own_stores) for r in rets)
         R.check(bool(reuse) and bool(ctor) and stored, rule, key_of(fi), fi.site,
-                f"{name}: an existing reference in refs.all is returned ({bool(reuse)}); a new one is PortRef(inst=self, portname={key}) ({bool(ctor)}) and is recorded in refs.all ({stored})",
+                f"{name}: what is returned comes from the shared table refs.all ({bool(reuse)}); a PortRef(inst=self, portname={key}) is created only when the table has none ({bool(ctor)}); it is recorded in refs.all and in refs.{own} ({stored})",
                 why="two distinct PortRef objects exist for one (instance, port); the back-reference added by connect is not the one a port-reference holder sees")
     shared.eq_hash_wellformed(repo, R, rule, F_PORTREF, "PortRef", "inst", "portname",
                               why="set membership of port references (remove in replace/disconnect) silently fails or removes another port's reference")
